@@ -14,7 +14,7 @@ from ..world import World, cause_chain, global_state_guard
 
 from .. import world as _world  # registers the CacheGetFailure look-alike
 
-EXC = list(FAULT_CLASSES)
+EXC = list(FAULT_CLASSES) + ["UnhashableError"] * 5  # (the unhashable user exception is worth more than one draw in seventy)
 
 
 def maskable_owners(spec):
@@ -106,6 +106,12 @@ class C12(HistoryProperty):
         dg = U.DictGen(rng, cfg, no_list_keys=gen.hashable_required_keys(spec))
         dg.MUTATIONS = list(dg.MUTATIONS) + ["repeat"] * 3
         ops = gen_history(rng, cfg, spec, n_ops=rng.randint(2, 9), dictgen=dg)
+        if rng.random() < 0.15:
+            # a switch of labrea's own given as a TEMPLATE whose reference is missing: an ordinary failed evaluation (the
+            # missing option is named, a coalesce falls through past such a member)
+            for op in ops:
+                if rng.random() < 0.4:
+                    op["o"] = dict(op["o"], LABREA={"CACHE": {rng.choice(["DISABLED", "DISABLE"]): "{NX9}"}})
         inplace = rng.random() < 0.33
         if rng.random() < 0.25:
             # "fail, correct the dictionary in place, retry, come back": one node, dictionaries A B A B on one object
@@ -155,6 +161,16 @@ class C12(HistoryProperty):
                     res.violate("cause-chain-rewired", op_index=i, node=op["node"], o=op["o"], wrapper=x.msg[:160], cause_source=str(c.source)[:160],
                                 chain=[type(y).__name__ for y in chain], faults=faults_desc)
                     return False
+        # the chain ends in a CONCRETE cause: the injected exception, one of labrea's own failure classes, or a ValueError of a
+        # domain check -- not in an accident inside labrea (unhashable ..., a bare KeyError, an unbound local, a missing attribute)
+        translated = len(chain) > 1 and isinstance(chain[-2], KeyNotFoundError)  # (the KeyError of the lookup, named by its wrapper)
+        accident = isinstance(root, (KeyError, UnboundLocalError, NameError, RecursionError)) or (
+            # (a TypeError can be the user's data -- 1.0 in 'abc' --; one about hashing the INJECTED exception object is labrea's)
+            isinstance(root, TypeError) and "unhashable type: 'Injected" in str(root))
+        if not isinstance(root, (InjectedFault, EvaluationError)) and not translated and accident:
+            res.violate("internal-error-as-root-cause", op_index=i, node=op["node"], o=op["o"], error=out.brief(), root=f"{type(root).__name__}: {str(root)[:160]}",
+                        chain=[type(x).__name__ for x in chain], faults=faults_desc)
+            return False
         knf = next((x for x in chain if isinstance(x, KeyNotFoundError)), None)
         if knf is not None and not isinstance(root, InjectedFault):
             key = knf.key
